@@ -1006,6 +1006,11 @@ func c02TaintFor(rt *c02Route, sc *c02Script) {
 }
 
 func c02NoteOutcome(run *c02Run, resp *c02Resp) {
+	// a 503 whose handler never ran is a rejection, not a failure the breaker records:
+	// it must not excuse itself (or later rejections) on a route that is otherwise clean
+	if c02IsBareReject(run, resp) {
+		return
+	}
 	if resp.Err != "" || resp.Status >= 500 {
 		c02Taint(run.route)
 	}
